@@ -12,7 +12,7 @@ TECH = {
     "C03": ("online monitor with per-operation audits (side-effect-free lookups of the whole key universe); loss attribution by sighting", "5 C03"),
     "C04": ("virtual clock (link-time steady_clock replacement) + online monitor; boundary-instant workload", "5 C04"),
     "C05": ("virtual clock + online monitor; deadline probing at deadline-1ns / deadline", "5 C05"),
-    "C06": ("recorded concurrent histories (real threads, delay injection at lock hooks) checked for linearizability against the executable specification (Wing-Gong/Lowe search); controlled scheduler enumerating lock-granularity interleavings", "5 C06"),
+    "C06": ("recorded concurrent histories (real threads, delay injection at lock hooks and inside value copies, ASan/UBSan build) checked for linearizability against the executable specification (Wing-Gong/Lowe search); controlled scheduler enumerating lock-granularity interleavings", "5 C06"),
     "C07": ("ThreadSanitizer (-O0 and -O2) on an all-public-methods free-running driver with no harness synchronisation; library-frame filter; method-pair overlap matrix", "5 C07"),
     "C08": ("AddressSanitizer + UBSan + libstdc++ debug-mode iterators (g++), clang sanitizers and valgrind memcheck on the monitored drivers; instance-registering value type for exactly-once destruction", "5 C08"),
     "C09": ("online monitor: allow-mode rule evaluated on the specification state for every insert; audits and deadline probes for rejected calls", "5 C09"),
